@@ -1,0 +1,5 @@
+//go:build !verif
+
+package tokenizer
+
+func verifOnNextToken(t *Tokenizer) {}
